@@ -1,7 +1,9 @@
 import Driver.Lb
 import Driver.LbSpec
+import Driver.Life
 def main (args : List String) : IO UInt32 := do
   match args with
   | ["lb"] => Driver.Lb.main; return 0
   | ["lbspec", ops, impl] => Driver.LbSpec.main ops impl; return 0
-  | _ => IO.eprintln "usage: npdriver lb | lbspec <ops> <impl>"; return 2
+  | ["life", trace] => Driver.Life.main trace; return 0
+  | _ => IO.eprintln "usage: npdriver lb | lbspec <ops> <impl> | life <trace>"; return 2
